@@ -13,7 +13,7 @@ EncVec == [k |-> "enc", s |-> orig', out |-> Encode(orig')]
 DecVec == LET v == Verdict(inp') IN
           [k |-> "dec", b |-> inp', v |-> v.v, why |-> v.why, out |-> v.out]
 
-GenNext == \E tail \in Tails :
+GenNext == phase = "pick" /\ \E tail \in Tails :
              /\ Pick(tail)
              /\ PrintT(<<"T", ToJson(IF IsEnc THEN EncVec ELSE DecVec)>>)
 =============================================================================
